@@ -477,6 +477,12 @@ func (p *Program) eventLoop(model Model, cmds chan Cmd) (Model, error) {
 
 			case sequenceMsg:
 				go func() {
+					// The commands of a sequence are commands like any
+					// other: a panic in one of them is recovered.
+					if !p.startupOptions.has(withoutCatchPanics) {
+						defer p.recoverFromPanic()
+					}
+
 					// Execute commands one at a time, in order.
 					for _, cmd := range msg {
 						if cmd == nil {
@@ -487,8 +493,16 @@ func (p *Program) eventLoop(model Model, cmds chan Cmd) (Model, error) {
 						if batchMsg, ok := msg.(BatchMsg); ok {
 							g, _ := errgroup.WithContext(p.ctx)
 							for _, cmd := range batchMsg {
+								if cmd == nil {
+									continue
+								}
+
 								cmd := cmd
 								g.Go(func() error {
+									if !p.startupOptions.has(withoutCatchPanics) {
+										defer p.recoverFromPanic()
+									}
+
 									p.Send(cmd())
 									return nil
 								})
